@@ -114,10 +114,39 @@ struct good_spin
     }
     void unlock() { locked_.store(false); }
 };
+// ticket locks: waiting on an ORDERED comparison breaks when the (finite) counters wrap; waiting on inequality does not
+struct wrapping_ticket
+{
+    std::atomic<unsigned short> next_{ 0 }, serving_{ 0 };
+    void lock()
+    {
+        const unsigned short ticket = next_.fetch_add(1);
+        while (serving_.load() < ticket)
+        {
+        }
+    }
+    void unlock() { serving_.fetch_add(1); }
+};
+struct good_ticket
+{
+    std::atomic<unsigned short> next_{ 0 }, serving_{ 0 };
+    void lock()
+    {
+        const unsigned short ticket = next_.fetch_add(1);
+        while (serving_.load() != ticket)
+        {
+        }
+    }
+    void unlock() { serving_.fetch_add(1); }
+};
 struct spin_sinks
 {
     broken_spin& bad_mutex() { static broken_spin m; return m; }
     good_spin& good_mutex() { static good_spin m; return m; }
+    wrapping_ticket& bad_ticket() { static wrapping_ticket m; return m; }
+    good_ticket& ok_ticket() { static good_ticket m; return m; }
+    void with_wrapping_ticket(const std::string& r) { std::lock_guard<wrapping_ticket> l(bad_ticket()); std::cout << r; }
+    void with_good_ticket(const std::string& r) { std::lock_guard<good_ticket> l(ok_ticket()); std::cout << r; }
     void with_broken(const std::string& r) { std::lock_guard<broken_spin> l(bad_mutex()); std::cout << r; }
     void with_good(const std::string& r) { std::lock_guard<good_spin> l(good_mutex()); std::cout << r; }
     void with_timeout(const std::string& r) { static std::timed_mutex m; std::unique_lock<std::timed_mutex> l(m, std::chrono::seconds(1)); std::cout << r; }
